@@ -54,7 +54,7 @@ def Forest.connect (f : Forest) (p c : Nat) : Forest :=
 
 /-- SMB disconnect reported by `p` for agent `c` -/
 def Forest.disconnect (f : Forest) (p c : Nat) : Forest :=
-  if f.agents.contains p ∧ f.agents.contains c then f.linkRemove p c true else f
+  if f.agents.contains p ∧ f.agents.contains c ∧ f.parent c = some p then f.linkRemove p c true else f
 
 def Forest.linksErase (g : Forest) (q a : Nat) : Forest := { g with links := upd g.links q ((g.links q).erase a) }
 
